@@ -655,10 +655,10 @@ func sweepPrograms() []prog {
 // the context error.  A guard missing in any single evaluator path therefore shows as
 // "<family>:deadline-overrun  no return until N ms after ..." (or :hang), not as a silently slower run.
 func boundedFamilies() []prog {
-	const arr = "a=0:3000; "   // 3000 elements: nested twice = 9e6 body evaluations
-	const arr3 = "a=0:210; "   // nested three times = 9.3e6
-	const mp = "m={}; for i=0:2600 {m[i]=i}; " // big map, built by a counted loop
-	const str = `s="abcdefghij"*170; `         // 1700 bytes
+	const arr = "a=0:3600; "   // 3600 elements: nested twice = 1.3e7 body evaluations
+	const arr3 = "a=0:240; "   // nested three times = 1.4e7
+	const mp = "m={}; for i=0:3000 {m[i]=i}; " // big map, built by a counted loop
+	const str = `s="abcdefghij"*90; `          // 900 bytes (Rest of a string copies it: cubic)
 	fs := []prog{
 		// for-in over an array value (evalForList), bodies without any call or other loop form
 		{"forin-array-2", arr + "n=0; for x=a {for y=a {n=n+1}}; n", ""},
@@ -675,8 +675,8 @@ func boundedFamilies() []prog {
 		{"forin-array-index", arr + "for x=a {for y=a {a[y]; a[1:3]}}", ""},
 		{"forin-array-builtins", arr + "n=0; for x=a {for y=a {n=n+len(a[0:3])+first(a)+len(rest(a[0:4]))}}; n", ""},
 		{"forin-array-catch-quote", arr + "for x=a {for y=a {catch(y); quote(y)}}", ""},
-		{"forin-array-in-func", "func run(a){n=0; for x=a {for y=a {n=n+1}}; n}; run(0:3000)", ""},
-		{"forin-array-in-lambda", "r=(a)=>{n=0; for x=a {for y=a {n=n+1}}; n}; r(0:3000)", ""},
+		{"forin-array-in-func", "func run(a){n=0; for x=a {for y=a {n=n+1}}; n}; run(0:3600)", ""},
+		{"forin-array-in-lambda", "r=(a)=>{n=0; for x=a {for y=a {n=n+1}}; n}; r(0:3600)", ""},
 		{"forin-array-macro", arr + "lp=macro(body){quote(for x=a {for y=a {unquote(body)}})}; n=0; lp(n=n+1); n", ""},
 		// for-in over a map / a string / mixed
 		{"forin-map-2", mp + "n=0; for kv=m {for kw=m {n=n+1}}; n", ""},
@@ -687,12 +687,12 @@ func boundedFamilies() []prog {
 		// condition loop, counted loops (finite)
 		{"forcond-finite", "n=0; for n<14000000 {n=n+1}; n", ""},
 		{"forcond-nested", "i=0; for i<3600 {i=i+1; j=0; for j<3600 {j=j+1}}; i", ""},
-		{"forcond-with-forin", arr + "k=0; for k<3000 {k=k+1; for y=a {y}}; k", ""},
+		{"forcond-with-forin", arr + "k=0; for k<6000 {k=k+1; for y=a {y}}; k", ""},
 		{"forN-finite", "n=0; for 14000000 {n=n+1}; n", ""},
-		{"forN-nested", "for 3700 {for 3700 {1}}", ""},
-		{"forrange-nested", "n=0; for i=0:3600 {for j=0:3600 {n=i+j}}; n", ""},
-		{"forrange-forin", arr + "for i=0:3000 {for y=a {i+y}}", ""},
-		{"forin-forrange", arr + "for x=a {for j=0:3000 {x+j}}", ""},
+		{"forN-nested", "for 12000 {for 12000 {1}}", ""},
+		{"forrange-nested", "n=0; for i=0:5000 {for j=0:5000 {n=i+j}}; n", ""},
+		{"forrange-forin", arr + "for i=0:6000 {for y=a {i+y}}", ""},
+		{"forin-forrange", arr + "for x=a {for j=0:12000 {x+j}}", ""},
 		// recursion that is exponential and not memoizable (reads a global), mutual recursion, lambdas
 		{"rec-fib-global", "g=0; func fib(n){g; if n<2 {return n}; fib(n-1)+fib(n-2)}; fib(31)", ""},
 		{"rec-mutual-global", "g=0; func ev(n){g; if n==0 {return 1}; od(n-1)+od(n-1)}; func od(n){g; if n==0 {return 0}; ev(n-1)+ev(n-1)}; ev(21)", ""},
